@@ -114,4 +114,17 @@ CLAIMS = {
         "note": _STD_NOTE + " Two known findings recorded (record_call_node, record_value). SQLAlchemy facts (pending rows become durable at the next commit on the session) are frozen. Undecided: database durability itself.",
         "technique": "static analysis: commit-point / write effect summaries (fixpoint over self-calls), CFG reachability, decorator enumeration",
     },
+    "C10": {
+        "text": "Lock-discipline decision on the start/exit handshake of every executor monitor thread (6 thread targets in 5 classes): extraction of the "
+        "terminal loop guard, the work collections it reads and the start method's liveness test; only the shared-lock idiom or a monitor that does not "
+        "exit on empty work is accepted; registration-before-start and top-level error routing.",
+        "note": _STD_NOTE + " Six known findings recorded (every executor has the unlocked handshake; each reproduced with a forced interleaving). Undecided: behaviour of the cloud APIs.",
+        "technique": "static analysis: thread-entry discovery, loop-guard/liveness-test extraction, lexical lockset idiom matching",
+    },
+    "C11": {
+        "text": "Guarded-by lockset analysis of JobArrayer (every field locked somewhere is locked everywhere outside __init__), the exactly-once partition of a "
+        "popped group into batches with the structural size bounds, grouping key, counter arithmetic, and the monitor's error routing.",
+        "note": _STD_NOTE + " Foreign unguarded reads of num_pending by executor loop guards are listed in evidence (they only delay exit; C10 covers that loop). Undecided: the interleavings themselves.",
+        "technique": "static analysis: lexical lockset (guarded-by) over all methods, structural partition rules",
+    },
 }
